@@ -628,4 +628,155 @@ theorem tieAt : ∀ N, TieAt N
   | 0 => tie_zero
   | N + 1 => ⟨tie_bare_step N (tieAt N), tie_field_step N (tieAt N)⟩
 
+/-! ## the fragment is the domain of `fieldCodec` -/
+
+theorem allSome_of_forall {α : Type} : ∀ (l : List (Option α)), (∀ x ∈ l, ∃ a, x = some a) → ∃ r, allSome l = some r
+  | [], _ => ⟨[], rfl⟩
+  | none :: _, h => by obtain ⟨a, ha⟩ := h none List.mem_cons_self; cases ha
+  | some a :: l, h => by
+    obtain ⟨r, hr⟩ := allSome_of_forall l (fun x hx => h x (List.mem_cons_of_mem _ hx))
+    exact ⟨a :: r, by simp [allSome, hr]⟩
+
+theorem field_of_bare {n : Nat} {T : GoType} (h : ∀ oe, ∃ cb, bareCodec n T oe = some cb) (oe : Bool) :
+    ∃ c, fieldCodec (n + 1) T oe = some c := by
+  simp only [fieldCodec]
+  split
+  · obtain ⟨cb, hcb⟩ := h oe; exact ⟨_, by rw [hcb]; rfl⟩
+  · split
+    · obtain ⟨cb, hcb⟩ := h true; exact ⟨_, by rw [hcb]; rfl⟩
+    · exact h false
+
+/-- on the fragment `bareCodec` is defined from budget `2 * depth + 1` on -/
+theorem frag_bare : ∀ d (T : GoType), T.depth < d → Frag T = true →
+    ∀ N, 2 * T.depth + 1 ≤ N → ∀ oe, ∃ cb, bareCodec N T oe = some cb := by
+  intro d
+  induction d with
+  | zero => intro T h; omega
+  | succ d ih =>
+    intro T hd hT N hN oe
+    obtain ⟨n, rfl⟩ : ∃ n, N = n + 1 := ⟨N - 1, by omega⟩
+    have ihf : ∀ e : GoType, e.depth < d → Frag e = true → 2 * e.depth + 2 ≤ n → ∀ oe, ∃ c, fieldCodec n e oe = some c := by
+      intro e hed hF hn oe
+      obtain ⟨k, rfl⟩ : ∃ k, n = k + 1 := ⟨n - 1, by omega⟩
+      exact field_of_bare (fun oe => ih e hed hF k (by omega) oe) oe
+    cases T <;> simp only [Frag] at hT <;> try contradiction
+    case int w =>
+      have hw : w = 16 ∨ w = 32 ∨ w = 64 := by
+        rcases (by simpa using hT : (w = 16 ∨ w = 32) ∨ w = 64) with (h | h) | h <;> simp [h]
+      exact ⟨_, by simp only [bareCodec, hw, if_true] <;> rfl⟩
+    case slice e =>
+      simp only [GoType.depth] at hd hN
+      rw [bareCodec_slice]
+      by_cases hu : isU8n e = true
+      · exact ⟨_, by simp only [hu, if_true] <;> rfl⟩
+      · have hu' : isU8n e = false := by simpa using hu
+        have hF : Frag e = true := by simpa [hu'] using hT
+        obtain ⟨c, hc⟩ := ihf e (by omega) hF (by omega) false
+        exact ⟨_, by simp only [hu', Bool.false_eq_true, if_false, hc]; rfl⟩
+    case map k v =>
+      simp only [GoType.depth] at hd hN
+      simp only [Bool.and_eq_true] at hT
+      rw [bareCodec_map]
+      obtain ⟨c, hc⟩ := ihf v (by omega) hT.2 (by omega) false
+      exact ⟨_, by simp only [hT.1, if_true, hc]; rfl⟩
+    case ptr e =>
+      simp only [GoType.depth] at hd hN
+      rw [bareCodec_ptr]
+      obtain ⟨c, hc⟩ := ih e (by omega) hT n (by omega) false
+      exact ⟨_, by rw [hc]; rfl⟩
+    case struct nm pkg fs =>
+      simp only [GoType.depth] at hd hN
+      simp only [Bool.and_eq_true] at hT
+      rw [bareCodec_struct]
+      obtain ⟨cs, hcs⟩ := allSome_of_forall ((encFields fs).map fun f => fieldCodec n f.type (omitEmptyTag f.jsonTag))
+        (by
+          intro x hx
+          obtain ⟨f, hf, rfl⟩ := List.mem_map.mp hx
+          have hf' : f ∈ fs ∧ nameForField f ≠ "-" := by simpa [encFields] using hf
+          have hdl := GoField.depth_le_depthList hf'.1
+          exact ihf f.type (by omega) (fragFields_mem hT.2 hf'.1 hf'.2) (by omega) _)
+      exact ⟨_, by simp only [hT.1, if_true, hcs]; rfl⟩
+    all_goals exact ⟨_, by simp only [bareCodec] <;> rfl⟩
+
+/-- on the fragment `fieldCodec` is defined from budget `2 * depth + 2` on -/
+theorem frag_field (T : GoType) (hT : Frag T = true) (N : Nat) (hN : 2 * T.depth + 2 ≤ N) (oe : Bool) :
+    ∃ c, fieldCodec N T oe = some c := by
+  obtain ⟨n, rfl⟩ : ∃ n, N = n + 1 := ⟨N - 1, by omega⟩
+  exact field_of_bare (fun oe => frag_bare (T.depth + 1) T (by omega) hT n (by omega) oe) oe
+
+/-- **The fragment is exactly the domain of `fieldCodec`.** -/
+theorem frag_iff (T : GoType) : Frag T = true ↔ ∃ N c, fieldCodec N T false = some c :=
+  ⟨fun h => ⟨2 * T.depth + 2, frag_field T h _ (Nat.le_refl _) false⟩,
+   fun ⟨N, c, h⟩ => ((tieAt N).field T false c h).1⟩
+
+/-! ## headline -/
+
+/-- **The codec of a type, from `fieldCodec`**: wherever `fieldCodec N T false = some c`, schema
+generation for `T` succeeds with `genSchema T` (any stack budget above the nesting depth of `T`) and
+`buildCodec` on that schema, for `T`, with the library's registry and any fuel from `T.bfuel + 3` on,
+yields exactly `c`. -/
+theorem built_of_fieldCodec {N : Nat} {T : GoType} {c : Codec} (h : fieldCodec N T false = some c)
+    (n m : Nat) (hn : T.depth < n) (hm : T.bfuel + 3 ≤ m) :
+    schemaForType SReg.empty TEnv.empty n [] T = .ok (genSchema T) ∧
+      buildCodec libReg m (genSchema T) (some T) false = .ok c := by
+  obtain ⟨hF, hb⟩ := (tieAt N).field T false c h
+  refine ⟨gen_frag T hF n hn, ?_⟩
+  have := hb m hm
+  rwa [omitWrap_false] at this
+
+/-- **The codec the library builds for a Go type is `fieldCodec` of that type.** For every Go type `T`
+of the fragment (`Frag`), every stack budget `n` above its nesting depth, every build fuel
+`m ≥ T.bfuel + 3` and every budget `N ≥ 2 * T.depth + 2`: schema generation yields a schema `s`
+(namely `genSchema T`), `buildCodec` with the library's registry (`time.Time`, `null.*` registered, no
+user registrations) builds a codec `c` from `s` for `T`, and `c` is `fieldCodec N T false`. -/
+theorem built_is_fieldCodec (T : GoType) (hT : Frag T = true) (n m N : Nat)
+    (hn : T.depth < n) (hm : T.bfuel + 3 ≤ m) (hN : 2 * T.depth + 2 ≤ N) :
+    ∃ s c, schemaForType SReg.empty TEnv.empty n [] T = .ok s ∧
+      buildCodec libReg m s (some T) false = .ok c ∧ fieldCodec N T false = some c := by
+  obtain ⟨c, hc⟩ := frag_field T hT N hN false
+  obtain ⟨h1, h2⟩ := built_of_fieldCodec hc n m hn hm
+  exact ⟨genSchema T, c, h1, h2, hc⟩
+
+/-- the same for `builtCodec` (stack budget 100, build fuel 100) -/
+theorem builtCodec_eq (T : GoType) (hT : Frag T = true) (hd : T.depth < 100) (hf : T.bfuel + 3 ≤ 100)
+    (N : Nat) (hN : 2 * T.depth + 2 ≤ N) :
+    (fieldCodec N T false).map Except.ok = some (builtCodec T) := by
+  obtain ⟨c, hc⟩ := frag_field T hT N hN false
+  obtain ⟨h1, h2⟩ := built_of_fieldCodec hc 100 100 hd hf
+  simp only [builtCodec, h1, h2, hc, Option.map]
+
+/-- `fieldCodec` does not depend on its budget once it is defined -/
+theorem fieldCodec_budget {N N' : Nat} {T : GoType} {c c' : Codec} (h : fieldCodec N T false = some c)
+    (h' : fieldCodec N' T false = some c') : c = c' := by
+  have h1 := (built_of_fieldCodec h (T.depth + 1) (T.bfuel + 3) (by omega) (by omega)).2
+  have h2 := (built_of_fieldCodec h' (T.depth + 1) (T.bfuel + 3) (by omega) (by omega)).2
+  rw [h1] at h2
+  cases h2; rfl
+
+/-! non-vacuity: `tBig` (NormSpec.lean) has every case of the fragment; `tSkip` has skipped fields
+(unexported, `json:"-"`, `bq:"-"`) of types outside the fragment, also in a nested struct -/
+
+example : Frag tBig = true := by decide
+example : tBig.depth = 5 ∧ tBig.bfuel = 36 := by decide
+
+example : (fieldCodec 20 tBig false).map Except.ok = some (builtCodec tBig) :=
+  builtCodec_eq tBig (by decide) (by decide) (by decide) 20 (by decide)
+
+def tSkip : GoType :=
+  .struct "Ex" "main" [.mk "a" false "" "" .chan, .mk "B" true "b,omitempty" "" (.int 32), .mk "C" true "-" "" .iface,
+    .mk "D" true "" "-" (.int 8),
+    .mk "E" true "" "" (.ptr (.struct "In" "main" [.mk "x" false "" "" .string, .mk "Y" true "" "" .time]))]
+
+example : Frag tSkip = true := by decide
+
+example : fieldCodec 8 tSkip false = some (.record
+    [.unit, .int 0, .unit, .int 0, .ptr none]
+    [.unionOne (.int 32 true) 1,
+     .unionOne (.pointer (.record [.str [], .time TimeVal.zero] [.unionOne .timeString 1] [some 1])) 1]
+    [some 1, some 4]) := by rfl
+
+example : ∃ s c, schemaForType SReg.empty TEnv.empty 4000 [] tSkip = .ok s ∧
+    buildCodec libReg 200 s (some tSkip) false = .ok c ∧ fieldCodec 8 tSkip false = some c :=
+  built_is_fieldCodec tSkip (by decide) 4000 200 8 (by decide) (by decide) (by decide)
+
 end Avro
